@@ -328,6 +328,25 @@ func classifyDeath(stderr string, waitErr error) *proto.FatalInfo {
 		f := strings.TrimPrefix(m[1], "github.com/jsightapi/")
 		fi.Func = strings.TrimPrefix(f, "jsight-api-core/")
 	}
+	if fi.Kind == "stack-overflow" {
+		// the function that recurses, not the leaf it happened to be in: the most frequent library frame of the dump
+		count, best := map[string]int{}, ""
+		for _, m := range reFrame.FindAllStringSubmatch(stderr, -1) {
+			count[m[1]]++
+			if best == "" || count[m[1]] > count[best] {
+				best = m[1]
+			}
+		}
+		if best != "" {
+			fi.Func = strings.TrimPrefix(strings.TrimPrefix(best, "github.com/jsightapi/"), "jsight-api-core/")
+		}
+	}
+	switch {
+	case strings.Contains(stderr, "main.(*built).call"):
+		fi.Stage = "call"
+	case strings.Contains(stderr, "main.build("):
+		fi.Stage = "build"
+	}
 	if len(stderr) > 3000 {
 		stderr = stderr[:3000] + "\n…"
 	}
